@@ -53,6 +53,15 @@ package main
 //	      2 UPPER, 3 aLTERNATING); the configuration token keeps them in lower case, which is what viper makes of them
 //	r     (seventh round) the scenario is started vlDepStarts times although the holder has no component field: mapstructure
 //	      ranges over a Go map when it looks for the key of a struct field, every start must bind the same values
+//	h<n>  (eighth round) every tagged field of the holder is HIDDEN, in Go's selector sense, by a name collision among embedded
+//	      structs (shape n of vlHiddenFields: two mix-ins with a same-named field, an embedded field shadowed by a field of the
+//	      holder, one or two levels deep); the holder has no other tagged field; the field is read through the embedded struct
+//
+// Tag-less fields that name their own prefix (section "kind CP" at the end of the file):
+//
+//	CP g<n>[+p] ty cfg c(shape:hexname:hexown,…)   a Go-declared holder whose fields implement definition.ConfigurationProperties,
+//	                                each instance pre-populated with the state that says which subtree it is bound to, next to
+//	                                a second component with one `prefix:"<own>"` twin per field
 //
 // ty      S string | I int | J int64 | U uint | D float64 | B bool | A any | P<ty> | L<ty> | M<ty> | T(hexname:ty:hexvalidate,…)
 //         Z time.Time | Y vlStamp (a named type whose underlying type is time.Time)   — outside the model's types: oracle only
@@ -105,6 +114,8 @@ package main
 //        the container PANICS instead of starting / returning an error.
 //   kind HM: bound-aliased — a late field does not hold the document's value after the owner of ANOTHER field edited its
 //        own bound map / list (no Set anywhere).
+//   kind CP (eighth round): cprops-subtree — a tag-less field does not hold the configured value of the subtree its OWN Prefix()
+//        names; cprops-twin — it differs from the twin bound to the same subtree through a prefix tag; cprops-panic.
 
 import (
 	"fmt"
@@ -1073,9 +1084,14 @@ func vlRunHolder(t reflect.Type, tags []string, doc string, prefill, dep bool, o
 	}
 	// flag e<n>: the tagged fields sit in an anonymous embedded struct (no tag on the embedded field: the container
 	// flattens it into the holder's own properties), n levels deep; every level has an untagged field of its own
-	for d := 0; d < opt.embed; d++ {
+	for d := 0; d < opt.embed && opt.hide == 0; d++ {
 		fs = []reflect.StructField{{Name: fmt.Sprintf("Emb%d", d), Type: reflect.StructOf(fs), Anonymous: true},
 			{Name: fmt.Sprintf("Own%d", d), Type: reflect.TypeOf("")}}
+	}
+	// flag h<n>: the tagged fields sit in an embedded mix-in and are hidden (in Go's selector sense) by a name collision
+	hidePath := 0
+	if opt.hide > 0 {
+		fs, hidePath = vlHiddenFields(fs, opt.hide)
 	}
 	comps := []any{nil}
 	if dep {
@@ -1088,8 +1104,11 @@ func vlRunHolder(t reflect.Type, tags []string, doc string, prefill, dep bool, o
 	} else {
 		holder = reflect.New(reflect.StructOf(fs))
 		inner = holder.Elem()
-		for d := 0; d < opt.embed; d++ {
+		for d := 0; d < opt.embed && opt.hide == 0; d++ {
 			inner = inner.Field(0)
+		}
+		for d := 0; d < hidePath; d++ {
+			inner = inner.Field(0) // read through the embedded struct explicitly: the promoted selector does not exist
 		}
 	}
 	comps[0] = holder.Interface()
@@ -1453,6 +1472,7 @@ type vlVcase struct {
 	gotype  int         // flag g<n>: the holder is the Go-declared type number n of vlGoHolders (tags and type fixed by the table)
 	kcase   int         // flag c<n>: the keys of the document are written in letter case n of vlRecase (the configuration has them in lower case)
 	repeat  bool        // flag r: the scenario is started vlDepStarts times (no component field), all starts must agree
+	hide    int         // flag h<n> (eighth round): every tagged field is HIDDEN by a name collision among embedded structs, see vlHiddenFields
 	set     *vlCval     // kinds R3 RE RQ: the keys changed with app.Set between the two creations (a map)
 	gate    string      // kinds R3 RE RQ: why the first creation fails: n | a0 | a1 | w
 	labels  []string
@@ -1480,9 +1500,12 @@ type vlHolderOpt struct {
 	embed  int  // the tagged fields live in an anonymous embedded struct, this many levels deep
 	gotype int  // > 0: the Go-declared holder vlGoHolders[gotype-1]
 	repeat bool // several start-ups of the same scenario although the holder has no component field
+	hide   int  // > 0: the tagged fields are hidden by a name collision among embedded structs (vlHiddenFields)
 }
 
-func (c *vlVcase) holderOpt() vlHolderOpt { return vlHolderOpt{c.file, c.embed, c.gotype, c.repeat} }
+func (c *vlVcase) holderOpt() vlHolderOpt {
+	return vlHolderOpt{file: c.file, embed: c.embed, gotype: c.gotype, repeat: c.repeat, hide: c.hide}
+}
 
 func (c *vlVcase) moreFlags() string {
 	fl := ""
@@ -1503,6 +1526,9 @@ func (c *vlVcase) moreFlags() string {
 	}
 	if c.repeat {
 		fl += "r"
+	}
+	if c.hide > 0 {
+		fl += "h" + strconv.Itoa(c.hide)
 	}
 	return fl
 }
@@ -1573,7 +1599,13 @@ func vlRunCase(c *vlVcase, w *hx.Writer) {
 		return
 	}
 	if c.gotype > 0 {
-		c.dep, c.embed = false, 0 // the Go-declared holders are what they are
+		c.dep, c.embed, c.hide = false, 0, 0 // the Go-declared holders are what they are
+	}
+	if c.hide > 0 {
+		c.embed = 0 // the collision brings its own embedding
+		if c.hide > vlHideShapes || c.set != nil {
+			return
+		}
 	}
 	rt := c.t.rtype()
 	doc := vlYamlDoc(c.cfg)
@@ -1807,6 +1839,9 @@ func vlRunCase(c *vlVcase, w *hx.Writer) {
 		}
 		if c.repeat {
 			cs2.Tags = append(cs2.Tags, "repeated-starts")
+		}
+		if c.hide > 0 {
+			cs2.Tags = append(cs2.Tags, fmt.Sprintf("hidden-field%d", c.hide))
 		}
 	}
 
@@ -2303,6 +2338,10 @@ func vlValueReplay(scn string, w *hx.Writer) {
 		vlHMReplay(f, w)
 		return
 	}
+	if len(f) > 0 && f[0] == "CP" {
+		vlCPReplay(f, w)
+		return
+	}
 	if len(f) < 6 {
 		return
 	}
@@ -2318,8 +2357,8 @@ func vlValueReplay(scn string, w *hx.Writer) {
 	c := &vlVcase{kind: kind, t: t, cfg: cfg, labels: []string{"replay"},
 		prefill: strings.Contains(flags, "p"), dep: strings.Contains(flags, "d"),
 		ystyle: vlFlagNum(flags, 'y'), file: strings.Contains(flags, "f"), embed: vlFlagNum(flags, 'e'), gotype: vlFlagNum(flags, 'g'),
-		kcase: vlFlagNum(flags, 'c'), repeat: strings.Contains(flags, "r")}
-	if c.embed > 2 || c.ystyle > vlDocStyles || c.gotype > len(vlGoHolders) || c.kcase > vlKeyCases {
+		kcase: vlFlagNum(flags, 'c'), repeat: strings.Contains(flags, "r"), hide: vlFlagNum(flags, 'h')}
+	if c.embed > 2 || c.ystyle > vlDocStyles || c.gotype > len(vlGoHolders) || c.kcase > vlKeyCases || c.hide > vlHideShapes {
 		return
 	}
 	tagToks := f[5:]
@@ -2341,7 +2380,7 @@ func vlValueReplay(scn string, w *hx.Writer) {
 		c.set, c.gate, base, tagToks = set, f[6], b, f[7:]
 		c.prefill, c.dep = false, false
 		c.ystyle, c.file, c.embed, c.gotype = 0, false, 0, 0
-		c.kcase, c.repeat = 0, false
+		c.kcase, c.repeat, c.hide = 0, false, 0
 	}
 	want := map[string]int{"V3": 3, "E": 1, "Q": 1}[base]
 	if want == 0 || len(tagToks) != want {
@@ -4411,6 +4450,11 @@ func vlValueGen(rng *hx.Rng, n int, tier string, w *hx.Writer) {
 	for i := 0; i < n/25; i++ {
 		vlRunCase(vlGenC17Decoy(rng.Fork()), w)
 	}
+	// (eighth round) … and as many holders whose tag-less fields name their own prefix (definition.ConfigurationProperties), each
+	// instance pre-populated with the state that says which subtree it is bound to, next to twins with an explicit prefix tag
+	for i := 0; i < n/25; i++ {
+		vlRunCP(vlGenCP(rng.Fork()), w)
+	}
 }
 
 func init() {
@@ -4451,6 +4495,11 @@ func init() {
 		// without a validate argument
 		for i := 0; i < n/12; i++ {
 			vlRunCase(vlGenTimeCase(rng.Fork()), w)
+		}
+		// (eighth round) … and one more in twelve whose tagged fields are all HIDDEN by a name collision among embedded structs
+		// (two mix-ins with a same-named field, an embedded field shadowed by a field of the holder): expressions first
+		for i := 0; i < n/12; i++ {
+			vlRunCase(vlGenHiddenCase(rng.Fork()), w)
 		}
 	}, Replay: vlValueReplay, Corpus: vlValueExprCorpus})
 }
@@ -4553,6 +4602,7 @@ func vlValueCorpus(w *hx.Writer) {
 	vlValueHMCorpus(w)
 	vlValueHMDeepCorpus(w)
 	vlValueKeyCorpus(w)
+	vlValueCPCorpus(w)
 }
 
 // vlValueHSCorpus: a start, app.Set, a later population (kind HS): the later holder shows the CURRENT configuration.
@@ -4803,6 +4853,7 @@ func vlValueExprCorpus(w *hx.Writer) {
 	vlRunCase(rq, w)
 	vlValueEmbeddedCorpus(w)
 	vlValueTimeCorpus(w)
+	vlValueHiddenCorpus(w)
 }
 
 // ---------------------------------------------------------------- histories with app.Set between two populations (kind HS)
@@ -6181,6 +6232,183 @@ var vlGoHolders = []vlGoHolderKind{
 		h := reflect.ValueOf(&vlGoHolder4{})
 		return h, h.Elem().Field(0)
 	}},
+	// (eighth round) holders whose only tagged fields are hidden by a name collision; read through the embedded struct
+	{"E", vlTI, "#{${k}+80},validate=max=9000", func() (reflect.Value, reflect.Value) {
+		h := reflect.ValueOf(&vlGoHolder5{})
+		return h, h.Elem().Field(0)
+	}},
+	{"E", vlTS, "#{${k}*2}s", func() (reflect.Value, reflect.Value) {
+		h := reflect.ValueOf(&vlGoHolder6{})
+		return h, h.Elem().Field(0)
+	}},
+	{"E", vlTI, "#{${k}/1000},validate=lte=5", func() (reflect.Value, reflect.Value) {
+		h := reflect.ValueOf(&vlGoHolder7{})
+		return h, h.Elem().Field(0).Field(0)
+	}},
+	{"E", vlTS, "#{${k}+90}-${k},validate=required", func() (reflect.Value, reflect.Value) {
+		h := reflect.ValueOf(&vlGoHolder8{})
+		return h, h.Elem().Field(1)
+	}},
+}
+
+// ---- (eighth round) tagged fields hidden by a name collision among embedded structs
+//
+// Meta.scanFields descends into every anonymous embedded struct and makes a property of every settable tagged field, whether
+// or not Go's selector rules let the holder name it: two embedded mix-ins with a same-named field (the promoted selector is
+// ambiguous) and an embedded field shadowed by a shallower field of the same name are legal Go, and their tagged fields are
+// configuration properties like any other.  A holder of flag h<n> has NO other tagged field: every stage must still run.
+// The field is read through the embedded struct explicitly (`holder.MixA.H0`).
+
+type vlGoMixA struct {
+	H0 int `value:"#{${k}+80},validate=max=9000"`
+}
+
+type vlGoMixB struct {
+	H0   int `value:"#{${k}+80},validate=max=9000"`
+	Note string
+}
+
+// vlGoHolder5: two mix-ins, H0 is ambiguous.
+type vlGoHolder5 struct {
+	vlGoMixA
+	vlGoMixB
+}
+
+type vlGoDefaults struct {
+	H0 string `value:"#{${k}*2}s"`
+}
+
+// vlGoHolder6: the embedded H0 is shadowed by the holder's own (untagged) H0.
+type vlGoHolder6 struct {
+	vlGoDefaults
+	H0 string
+}
+
+type vlGoLimits struct {
+	H0 int `value:"#{${k}/1000},validate=lte=5"`
+}
+
+type vlGoQuotaMid struct {
+	vlGoLimits
+	Own string
+}
+
+// vlGoHolder7: shadowed from two levels up.
+type vlGoHolder7 struct {
+	vlGoQuotaMid
+	H0 int
+}
+
+type vlGoGrpc struct {
+	H0 string `value:"#{${k}+90}-${k},validate=required"`
+}
+
+type vlGoHttp struct {
+	H0 string `value:"#{${k}+90}-${k},validate=required"`
+}
+
+// vlGoHolder8: ambiguous, next to an optional component field (the holder has both property groups); the SECOND mix-in is read.
+type vlGoHolder8 struct {
+	vlGoHttp
+	vlGoGrpc
+	Dep *vlValueDep `wire:",required=false"`
+}
+
+const vlHideShapes = 4
+
+// vlHiddenFields wraps the tagged fields fs of a holder so that every one of them is hidden by a name collision; path = how
+// many times Field(0) leads from the holder to the struct that contains the observed fields.
+//
+//	1  struct{ MixA{fs}; MixB{fs; Note string} }                      two mix-ins at the same depth: ambiguous
+//	2  struct{ MixA{fs}; <the names of fs, untagged> }                shadowed by fields of the holder itself
+//	3  struct{ Outer{ MixA{fs}; Own string }; <names, untagged> }     shadowed from two levels up
+//	4  struct{ OuterA{ MixA{fs} }; OuterB{ MixB{fs}; Note string } }  ambiguous at depth two
+func vlHiddenFields(fs []reflect.StructField, shape int) (out []reflect.StructField, path int) {
+	anon := func(name string, fields []reflect.StructField) reflect.StructField {
+		return reflect.StructField{Name: name, Type: reflect.StructOf(fields), Anonymous: true}
+	}
+	untagged := func() []reflect.StructField {
+		var u []reflect.StructField
+		for _, f := range fs {
+			u = append(u, reflect.StructField{Name: f.Name, Type: f.Type})
+		}
+		return u
+	}
+	note := reflect.StructField{Name: "Note", Type: reflect.TypeOf("")}
+	withNote := append(append([]reflect.StructField{}, fs...), note)
+	switch shape {
+	case 1:
+		return []reflect.StructField{anon("MixA", fs), anon("MixB", withNote)}, 1
+	case 2:
+		return append([]reflect.StructField{anon("MixA", fs)}, untagged()...), 1
+	case 3:
+		outer := anon("Outer", []reflect.StructField{anon("MixA", fs), {Name: "Own", Type: reflect.TypeOf("")}})
+		return append([]reflect.StructField{outer}, untagged()...), 2
+	default:
+		return []reflect.StructField{anon("OuterA", []reflect.StructField{anon("MixA", fs)}),
+			anon("OuterB", []reflect.StructField{anon("MixB", withNote)})}, 2
+	}
+}
+
+// vlGenHiddenCase: a case of the expression generators (plain, with defaulted operands, with keys named in two steps, with
+// quote characters; up to four draws until the tag carries a `#{…}`) or, one time in six, a value x constraint pair, whose
+// tagged field is hidden by a name collision (flag h<n>).
+func vlGenHiddenCase(r *hx.Rng) *vlVcase {
+	var c *vlVcase
+	for try := 0; try < 4; try++ {
+		switch r.Intn(6) {
+		case 0, 1:
+			c = vlGenExprCaseWith(r, false)
+		case 2:
+			c = vlGenExprCaseWith(r, true)
+		case 3:
+			c = vlGenComputedKeyCase(r)
+		case 4:
+			c = vlGenQuoteTextCase(r)
+		default:
+			if r.P(1, 2) {
+				c = vlGenValidateCase(r)
+			} else {
+				c = vlGenPtrZeroValidateCase(r)
+			}
+			try = 4 // a control without an expression: validation alone must work as well
+		}
+		if strings.Contains(vlTagText(c.tags[0]), "#{") {
+			break
+		}
+	}
+	c.hide = 1 + r.Intn(vlHideShapes)
+	c.embed = 0
+	c.labels = append(c.labels, "hidden-field")
+	return c
+}
+
+// vlValueHiddenCorpus: expressions (with and without placeholders inside, with and without a constraint on the result) in
+// holders whose only tagged field is hidden, every shape; the Go-declared holders 5-8.
+func vlValueHiddenCorpus(w *hx.Writer) {
+	for shape := 1; shape <= vlHideShapes; shape++ {
+		for _, dep := range []bool{false, true} {
+			mk := func(c *vlVcase) {
+				c.hide, c.dep = shape, dep
+				c.labels = append(c.labels, "hidden-field")
+				vlRunCase(c, w)
+			}
+			mk(vlExprCase(vlTI, map[string]*vlCval{"base": vlCInt(8000)}, "", vlTExpr(vlTPH("base"), vlTLit("+80"))))
+			mk(vlExprCase(vlTS, map[string]*vlCval{"secs": vlCInt(15)}, "", vlTExpr(vlTPH("secs"), vlTLit("*2")), vlTLit("s")))
+			mk(vlExprCase(vlTS, map[string]*vlCval{"kz": vlCStr("zz")}, "", vlTExpr(vlTLit("15*2")), vlTLit("s")))
+			mk(vlExprCase(vlTI, map[string]*vlCval{"base": vlCInt(8000)}, ",validate=lte=5", vlTExpr(vlTPH("base"), vlTLit("/1000"))))
+			mk(vlExprCase(vlTI, map[string]*vlCval{"base": vlCInt(8000)}, ",validate=lte=5", vlTExpr(vlTPH("base"), vlTLit("/2000"))))
+			mk(vlExprCase(vlTB, map[string]*vlCval{"lim": vlCInt(3)}, "", vlTExpr(vlTPHD("nolim", "7"), vlTLit(" > "), vlTPH("lim"))))
+			mk(vlExprCase(vlTS, map[string]*vlCval{"owner": vlCStr("ops42")}, ",validate=required alpha", vlTPH("owner")))
+			mk(vlExprCase(vlTS, map[string]*vlCval{"owner": vlCStr("ops")}, ",validate=required alpha", vlTPH("owner")))
+		}
+	}
+	vlRunCase(vlGoCase(5, map[string]*vlCval{"k": vlCInt(8000)}), w)
+	vlRunCase(vlGoCase(5, map[string]*vlCval{"k": vlCInt(9000)}), w)
+	vlRunCase(vlGoCase(6, map[string]*vlCval{"k": vlCInt(15)}), w)
+	vlRunCase(vlGoCase(7, map[string]*vlCval{"k": vlCInt(8000)}), w)
+	vlRunCase(vlGoCase(7, map[string]*vlCval{"k": vlCInt(4000)}), w)
+	vlRunCase(vlGoCase(8, map[string]*vlCval{"k": vlCInt(8000)}), w)
 }
 
 // vlGoHolderFits: the case is what the Go-declared holder number c.gotype declares.
@@ -7815,4 +8043,573 @@ func vlValueTimeCorpus(w *hx.Writer) {
 			mk("Q", t, vlTLit("nope"), ",required=false"+val)
 		}
 	}
+}
+
+// ---------------------------------------------------------------- (eighth round) kind CP: fields that name their own prefix
+//
+// A field WITHOUT a prefix tag whose own value implements definition.ConfigurationProperties is bound to the subtree that
+// its own Prefix() names (properties_aware_post_processors.go, ExtractHandler).  Prefix() is a method of the INSTANCE: one
+// configuration type may serve several subtrees, the instance says which (`&dataSource{Name: "primary"}` → `cp.primary`).
+//
+//	CP g<n>[+p] <ty> <cfg> c(<shape>:<hexname>:<hexown>,…)
+//
+// g<n>   the Go-declared holder number n of vlCpHolders (methods cannot be attached to reflect.StructOf types); `+p` = the
+//        members of every non-nil field hold non-zero defaults before Run
+// ty     the members every field binds: T(host:S,port:I,opts:MS)
+// per field of the holder, in order:
+//   shape   pp  a non-nil pointer, Prefix has a pointer receiver     np  a nil pointer, pointer receiver
+//           pv  a non-nil pointer, Prefix has a value receiver       vv  a value field, value receiver
+//           vp  a value field, pointer receiver: the field's own value does not carry the method - the library does not
+//               see it (observed on the unchanged library), the field must stay as it is: `unbound`
+//           (nv, a nil pointer with a value receiver, kills the process on the unchanged library - DESIGN section 10 - and is
+//           refused)
+//   name    the state the instance holds before Run (its Name member)
+//   own     what the field's OWN Prefix() answers before Run - the harness calls the method on the pre-populated value itself
+//
+// Next to the holder a second component (reflect.StructOf) has one TWIN per seen field: the same Go type, tagged
+// `prefix:"<own>"`.  Observation: `ok <field>… | <twin>…`, `err`, `panic`.
+//
+// Oracles (C17: binding a subtree by prefix gives exactly its configured value; the same subtree bound through a prefix tag):
+//   cprops-subtree  a seen field does not hold the configured value of the subtree its own Prefix() names (converted directly
+//                   by the harness), start-up fails although every named subtree is configured, or a field whose subtree is
+//                   NOT configured was bound all the same
+//   cprops-twin     a seen field differs from its prefix-tagged twin
+//   cprops-panic    the container panicked;  prefill-merged as for the other kinds
+
+type vlCpDyn struct {
+	Name string            `yaml:"-"`
+	Host string            `yaml:"host"`
+	Port int               `yaml:"port"`
+	Opts map[string]string `yaml:"opts"`
+}
+
+// Prefix: the instance says which subtree it is bound to (pointer receiver; a nil pointer answers the default).
+func (d *vlCpDyn) Prefix() string {
+	if d == nil || d.Name == "" {
+		return "cp.default"
+	}
+	return "cp." + d.Name
+}
+
+type vlCpDynV struct {
+	Name string            `yaml:"-"`
+	Host string            `yaml:"host"`
+	Port int               `yaml:"port"`
+	Opts map[string]string `yaml:"opts"`
+}
+
+// Prefix: the same with a value receiver.
+func (d vlCpDynV) Prefix() string {
+	if d.Name == "" {
+		return "cp.default"
+	}
+	return "cp." + d.Name
+}
+
+// vlCpFix / vlCpFixV: the controls - a constant prefix, whatever the instance holds.
+type vlCpFix struct {
+	Name string            `yaml:"-"`
+	Host string            `yaml:"host"`
+	Port int               `yaml:"port"`
+	Opts map[string]string `yaml:"opts"`
+}
+
+func (*vlCpFix) Prefix() string { return "cp.fixed" }
+
+type vlCpFixV struct {
+	Name string            `yaml:"-"`
+	Host string            `yaml:"host"`
+	Port int               `yaml:"port"`
+	Opts map[string]string `yaml:"opts"`
+}
+
+func (vlCpFixV) Prefix() string { return "cp.fixedv" }
+
+// vlCpHolder1: pointers to types whose Prefix has a pointer receiver.
+type vlCpHolder1 struct {
+	H0   *vlCpDyn
+	H1   *vlCpDyn
+	H2   *vlCpFix
+	Note string
+}
+
+// vlCpHolder2: types whose Prefix has a value receiver, by value and by pointer.
+type vlCpHolder2 struct {
+	H0 vlCpDynV
+	H1 *vlCpDynV
+	H2 vlCpFixV
+	H3 *vlCpFixV
+}
+
+// vlCpHolder3: mixed; H1 is a VALUE of a type whose Prefix has a pointer receiver.
+type vlCpHolder3 struct {
+	H0 *vlCpDynV
+	H1 vlCpDyn
+	H2 vlCpDynV
+	H3 *vlCpDyn
+}
+
+// vlCpHolder4: one configuration type for four subtrees.
+type vlCpHolder4 struct {
+	H0 *vlCpDyn
+	H1 *vlCpDyn
+	H2 vlCpDynV
+	H3 vlCpDynV
+}
+
+type vlCpSlot struct {
+	ptr, ptrRecv, dyn bool
+}
+
+type vlCpKind struct {
+	mk    func() any
+	slots []vlCpSlot
+}
+
+var vlCpHolders = []vlCpKind{
+	{func() any { return &vlCpHolder1{} }, []vlCpSlot{{true, true, true}, {true, true, true}, {true, true, false}}},
+	{func() any { return &vlCpHolder2{} }, []vlCpSlot{{false, false, true}, {true, false, true}, {false, false, false}, {true, false, false}}},
+	{func() any { return &vlCpHolder3{} }, []vlCpSlot{{true, false, true}, {false, true, true}, {false, false, true}, {true, true, true}}},
+	{func() any { return &vlCpHolder4{} }, []vlCpSlot{{true, true, true}, {true, true, true}, {false, false, true}, {false, false, true}}},
+}
+
+var vlCpType = &vlFty{k: 'T', fields: []vlFfield{{"host", vlTS, ""}, {"port", vlTI, ""}, {"opts", vlTMS, ""}}}
+
+type vlCpField struct {
+	shape string // pp np pv vv vp
+	name  string // the state of the instance before Run
+	own   string // what its own Prefix() answers before Run
+}
+
+type vlCpCase struct {
+	holder  int // 1-based index into vlCpHolders
+	prefill bool
+	cfg     *vlCval
+	fields  []vlCpField
+	labels  []string
+}
+
+// vlCpShapeOK: the shape is one the slot can have (and not the one that kills the process).
+func vlCpShapeOK(s vlCpSlot, shape string) bool {
+	switch shape {
+	case "pp", "np":
+		return s.ptr && s.ptrRecv
+	case "pv":
+		return s.ptr && !s.ptrRecv
+	case "vv":
+		return !s.ptr && !s.ptrRecv
+	case "vp":
+		return !s.ptr && s.ptrRecv
+	}
+	return false
+}
+
+func vlCpSeen(shape string) bool { return shape != "vp" }
+
+func vlCpFieldsTok(fs []vlCpField) string {
+	var p []string
+	for _, f := range fs {
+		p = append(p, f.shape+":"+hx.Hex(f.name)+":"+hx.Hex(f.own))
+	}
+	return "c(" + strings.Join(p, ",") + ")"
+}
+
+func vlParseCpFields(s string) ([]vlCpField, bool) {
+	if !strings.HasPrefix(s, "c(") || !strings.HasSuffix(s, ")") {
+		return nil, false
+	}
+	body := s[2 : len(s)-1]
+	if body == "" {
+		return nil, false
+	}
+	var fs []vlCpField
+	for _, part := range strings.Split(body, ",") {
+		q := strings.Split(part, ":")
+		if len(q) != 3 {
+			return nil, false
+		}
+		name, err1 := hx.UnHex(q[1])
+		own, err2 := hx.UnHex(q[2])
+		if err1 != nil || err2 != nil {
+			return nil, false
+		}
+		fs = append(fs, vlCpField{q[0], name, own})
+	}
+	return fs, true
+}
+
+// vlCpMembers: the struct behind a field (nil pointer: invalid).
+func vlCpMembers(f reflect.Value) reflect.Value {
+	if f.Kind() == reflect.Pointer {
+		if f.IsNil() {
+			return reflect.Value{}
+		}
+		return f.Elem()
+	}
+	return f
+}
+
+// vlRenderCp: a field of one of the four types rendered as vlCpType (the state member is not a bound member).
+func vlRenderCp(f reflect.Value) string {
+	m := vlCpMembers(f)
+	if !m.IsValid() {
+		return "nil"
+	}
+	var p []string
+	for _, mf := range vlCpType.fields {
+		for i := 0; i < m.NumField(); i++ {
+			if vlYamlName(m.Type().Field(i)) == mf.name {
+				p = append(p, hx.Hex(mf.name)+":"+vlRender(m.Field(i)))
+			}
+		}
+	}
+	r := "(" + strings.Join(p, ",") + ")"
+	if f.Kind() == reflect.Pointer {
+		return "&" + r
+	}
+	return r
+}
+
+// vlCpOwnPrefix: what the field's own value answers - the method is called on the value the field holds, as Go's method
+// sets allow it ("" when the value does not carry the method).
+func vlCpOwnPrefix(f reflect.Value) (own string, seen bool) {
+	if f.Kind() == reflect.Pointer && f.IsNil() && f.Type().Elem().Kind() == reflect.Struct {
+		if _, has := f.Type().Elem().MethodByName("Prefix"); has {
+			return "", false // a value receiver behind a nil pointer: cannot be asked
+		}
+	}
+	if p, ok := f.Interface().(interface{ Prefix() string }); ok {
+		return p.Prefix(), true
+	}
+	return "", false
+}
+
+// vlCpBuild: the holder with its fields in the states of the case; ok=false when the case does not fit the Go type.
+func vlCpBuild(c *vlCpCase) (holder reflect.Value, ok bool) {
+	if c.holder < 1 || c.holder > len(vlCpHolders) {
+		return holder, false
+	}
+	kind := vlCpHolders[c.holder-1]
+	if len(c.fields) != len(kind.slots) {
+		return holder, false
+	}
+	holder = reflect.ValueOf(kind.mk())
+	for i, f := range c.fields {
+		if !vlCpShapeOK(kind.slots[i], f.shape) {
+			return holder, false
+		}
+		fv := holder.Elem().Field(i)
+		if f.shape == "np" {
+			if f.name != "" {
+				return holder, false
+			}
+		} else {
+			if fv.Kind() == reflect.Pointer {
+				fv.Set(reflect.New(fv.Type().Elem()))
+			}
+			m := vlCpMembers(fv)
+			if c.prefill {
+				vlPrefill(m)
+			}
+			m.FieldByName("Name").SetString(f.name)
+		}
+		own, seen := vlCpOwnPrefix(fv)
+		if seen != vlCpSeen(f.shape) || own != f.own {
+			return holder, false
+		}
+	}
+	return holder, true
+}
+
+func vlCpTwinType(c *vlCpCase, holder reflect.Value) (reflect.Type, []int) {
+	var fs []reflect.StructField
+	var idx []int
+	for i, f := range c.fields {
+		if vlCpSeen(f.shape) {
+			fs = append(fs, reflect.StructField{Name: fmt.Sprintf("X%d", i), Type: holder.Elem().Field(i).Type(), Tag: reflect.StructTag(vlStructTag("prefix", f.own))})
+			idx = append(idx, i)
+		}
+	}
+	return reflect.StructOf(fs), idx
+}
+
+func vlRunCP(c *vlCpCase, w *hx.Writer) {
+	holder, ok := vlCpBuild(c)
+	if !ok {
+		return
+	}
+	doc := vlYamlDoc(c.cfg)
+	prefill := c.prefill && vlPrefillSafe(doc, nil)
+	if prefill != c.prefill {
+		c.prefill = false
+		holder, _ = vlCpBuild(c)
+	}
+	twinT, twinIdx := vlCpTwinType(c, holder)
+	twin := reflect.New(twinT)
+	before := make([]any, len(c.fields))
+	for i, f := range c.fields {
+		if !vlCpSeen(f.shape) {
+			before[i] = holder.Elem().Field(i).Interface()
+		}
+	}
+	var err error
+	pan := hx.Guard(func() {
+		a := app.NewApp()
+		err = a.Run(app.LogLevel(syslog.LvPanic), app.SetConfigLoader(loader.NewRawLoader([]byte(doc))), app.SetComponents(holder.Interface(), twin.Interface()))
+		a.Close()
+	})
+	outcome := "ok"
+	switch {
+	case pan != nil:
+		outcome = "panic"
+	case err != nil:
+		outcome = "err"
+	}
+	obs := []string{outcome}
+	fieldObs := make([]string, len(c.fields))
+	twinObs := map[int]string{}
+	remnant := false
+	if outcome == "ok" {
+		for i, f := range c.fields {
+			fv := holder.Elem().Field(i)
+			if !vlCpSeen(f.shape) && reflect.DeepEqual(before[i], fv.Interface()) {
+				fieldObs[i] = "unbound"
+			} else {
+				fieldObs[i] = vlRenderCp(fv)
+				remnant = remnant || (c.prefill && vlCpSeen(f.shape) && vlHasRemnant(fv))
+			}
+			obs = append(obs, fieldObs[i])
+		}
+		obs = append(obs, "|")
+		for j, i := range twinIdx {
+			twinObs[i] = vlRenderCp(twin.Elem().Field(j))
+			obs = append(obs, twinObs[i])
+		}
+	}
+	tok := fmt.Sprintf("g%d", c.holder)
+	if c.prefill {
+		tok += "+p"
+	}
+	scn := strings.Join([]string{"CP", tok, vlCpType.code(), c.cfg.tok(), vlCpFieldsTok(c.fields)}, " ")
+	out := hx.Case{Scn: scn, Obs: strings.Join(obs, " "), Tags: append([]string{"cprops", fmt.Sprintf("cp-holder%d", c.holder)}, c.labels...)}
+	if c.prefill {
+		out.Tags = append(out.Tags, "prefill")
+	}
+	// ---- oracles: the harness's own reading of the document
+	allConfigured := true
+	wants := make([]string, len(c.fields))
+	sure := make([]bool, len(c.fields))
+	shapeSeen := map[string]bool{}
+	for i, f := range c.fields {
+		if !shapeSeen[f.shape] {
+			shapeSeen[f.shape] = true
+			out.Tags = append(out.Tags, "shape-"+f.shape)
+		}
+		if !vlCpSeen(f.shape) {
+			continue
+		}
+		sub := vlGetPath(c.cfg, vlPathOf(f.own))
+		if sub == nil || sub.k == 'z' {
+			allConfigured = false
+			continue
+		}
+		t := vlCpType
+		if f.shape != "vv" {
+			t = &vlFty{k: 'P', elem: vlCpType}
+		}
+		wants[i], sure[i] = vlExpectRender(sub, t)
+	}
+	switch {
+	case outcome == "panic":
+		out.Oracle = "FAIL cprops-panic the container panicked"
+	case outcome == "err":
+		if allConfigured {
+			allSure := true
+			for i, f := range c.fields {
+				allSure = allSure && (sure[i] || !vlCpSeen(f.shape))
+			}
+			if allSure {
+				out.Oracle = "FAIL cprops-subtree start-up failed although every subtree named by a field's own Prefix() is configured: " + vlCpFieldsTok(c.fields)
+			}
+		}
+	default:
+		for i, f := range c.fields {
+			if !vlCpSeen(f.shape) || out.Oracle != "" {
+				continue
+			}
+			sub := vlGetPath(c.cfg, vlPathOf(f.own))
+			switch {
+			case sub == nil || sub.k == 'z':
+				out.Oracle = fmt.Sprintf("FAIL cprops-subtree field %d was bound (%s) although the subtree %q its own Prefix() names is not configured", i, fieldObs[i], f.own)
+			case sure[i] && fieldObs[i] != wants[i]:
+				out.Oracle = fmt.Sprintf("FAIL cprops-subtree field %d (%s, state %q) holds %s, the subtree %q its own Prefix() names is configured as %s", i, f.shape, f.name, fieldObs[i], f.own, wants[i])
+			case fieldObs[i] != twinObs[i]:
+				out.Oracle = fmt.Sprintf("FAIL cprops-twin field %d (%s, state %q) holds %s, its twin tagged prefix:%q holds %s", i, f.shape, f.name, fieldObs[i], f.own, twinObs[i])
+			}
+		}
+		if remnant && out.Oracle == "" {
+			out.Oracle = "FAIL prefill-merged a bound field still contains a piece of its default: " + strings.Join(obs, " ")
+		}
+	}
+	w.Put(out)
+}
+
+func vlCPReplay(f []string, w *hx.Writer) {
+	if len(f) != 5 {
+		return
+	}
+	tok, flags, _ := strings.Cut(f[1], "+")
+	if !strings.HasPrefix(tok, "g") || (flags != "" && flags != "p") {
+		return
+	}
+	n, err := strconv.Atoi(tok[1:])
+	if err != nil || f[2] != vlCpType.code() {
+		return
+	}
+	cfg, rest, ok := vlParseCval(f[3])
+	if !ok || rest != "" || cfg.k != 'm' {
+		return
+	}
+	fields, ok := vlParseCpFields(f[4])
+	if !ok {
+		return
+	}
+	vlRunCP(&vlCpCase{holder: n, prefill: flags == "p", cfg: cfg, fields: fields, labels: []string{"replay"}}, w)
+}
+
+// vlCpCaseOf: the case whose fields are in the given states (shape + name); `own` is asked of the instances themselves.
+func vlCpCaseOf(holder int, cfg *vlCval, prefill bool, states ...[2]string) *vlCpCase {
+	c := &vlCpCase{holder: holder, cfg: cfg, prefill: prefill}
+	kind := vlCpHolders[holder-1]
+	h := reflect.ValueOf(kind.mk())
+	for i, st := range states {
+		fv := h.Elem().Field(i)
+		if st[0] != "np" {
+			if fv.Kind() == reflect.Pointer {
+				fv.Set(reflect.New(fv.Type().Elem()))
+			}
+			vlCpMembers(fv).FieldByName("Name").SetString(st[1])
+		}
+		own, _ := vlCpOwnPrefix(fv)
+		c.fields = append(c.fields, vlCpField{st[0], st[1], own})
+	}
+	return c
+}
+
+func vlCpSection(host string, port int64, opts map[string]*vlCval) *vlCval {
+	kv := map[string]*vlCval{"host": vlCStr(host), "port": vlCInt(port)}
+	if opts != nil {
+		kv["opts"] = vlCMap(opts)
+	}
+	return vlCMap(kv)
+}
+
+// vlValueCPCorpus: the demo of the round-8 change and its neighbours.
+func vlValueCPCorpus(w *hx.Writer) {
+	cp := map[string]*vlCval{
+		"default": vlCpSection("localhost", 5432, nil),
+		"primary": vlCpSection("db1.internal", 6432, map[string]*vlCval{"sslmode": vlCStr("require"), "application_name": vlCStr("007")}),
+		"replica": vlCpSection("db2.internal", 6433, map[string]*vlCval{"sslmode": vlCStr("disable")}),
+		"fixed":   vlCpSection("fixed.internal", 1, nil),
+		"fixedv":  vlCpSection("fixedv.internal", 2, map[string]*vlCval{"mode": vlCStr("TRUE")}),
+		"eu":      vlCMap(map[string]*vlCval{"west": vlCpSection("1.10", 7000, nil)}),
+	}
+	cfg := vlCMap(map[string]*vlCval{"cp": vlCMap(cp), "kz": vlCStr("zz")})
+	for _, pf := range []bool{false, true} {
+		c := func(holder int, states ...[2]string) {
+			cs := vlCpCaseOf(holder, cfg, pf, states...)
+			cs.labels = []string{"corpus"}
+			vlRunCP(cs, w)
+		}
+		c(1, [2]string{"pp", "primary"}, [2]string{"pp", "replica"}, [2]string{"np", ""})
+		c(1, [2]string{"np", ""}, [2]string{"pp", ""}, [2]string{"pp", "primary"})
+		c(1, [2]string{"pp", "eu.west"}, [2]string{"np", ""}, [2]string{"pp", ""})
+		c(2, [2]string{"vv", "replica"}, [2]string{"pv", "primary"}, [2]string{"vv", "primary"}, [2]string{"pv", ""})
+		c(2, [2]string{"vv", ""}, [2]string{"pv", ""}, [2]string{"vv", ""}, [2]string{"pv", "replica"})
+		c(3, [2]string{"pv", "replica"}, [2]string{"vp", "primary"}, [2]string{"vv", "eu.west"}, [2]string{"pp", "primary"})
+		c(3, [2]string{"pv", "primary"}, [2]string{"vp", ""}, [2]string{"vv", "primary"}, [2]string{"np", ""})
+		c(4, [2]string{"pp", "primary"}, [2]string{"pp", "replica"}, [2]string{"vv", "eu.west"}, [2]string{"vv", ""})
+		// a subtree that is not configured: start-up fails (the field is required)
+		c(4, [2]string{"pp", "primary"}, [2]string{"pp", "nowhere"}, [2]string{"vv", "replica"}, [2]string{"vv", ""})
+	}
+}
+
+// vlGenCP: a document with the sections cp.default, cp.fixed, cp.fixedv and two to four named ones (one of them one level
+// deeper), all different; the fields of one of the Go-declared holders pre-populated with states that name them.
+func vlGenCP(r *hx.Rng) *vlCpCase {
+	used := map[string]bool{}
+	word := func() string {
+		for {
+			w := strings.ToLower(vlGenPlainWord(r))
+			if !used[w] && w != "default" && w != "fixed" && w != "fixedv" {
+				used[w] = true
+				return w
+			}
+		}
+	}
+	section := func() *vlCval {
+		kv := map[string]*vlCval{}
+		if !r.P(1, 10) {
+			kv["host"] = vlCStr(vlGenStringClass(r, []string{"plain", "plain", "numberlike", "boollike", "quoted", "punct", "unicode"}[r.Intn(7)]))
+		}
+		if !r.P(1, 10) {
+			kv["port"] = vlCInt(int64(1 + r.Intn(65535)))
+		}
+		if r.P(2, 3) {
+			opts := map[string]*vlCval{}
+			for i, n := 0, 1+r.Intn(3); i < n; i++ {
+				opts[word()] = vlCStr(vlGenStringClass(r, []string{"plain", "numberlike", "boollike", "punct"}[r.Intn(4)]))
+			}
+			kv["opts"] = vlCMap(opts)
+		}
+		if r.P(1, 8) {
+			kv[word()] = vlCInt(int64(r.Intn(100))) // a key no member reads
+		}
+		if len(kv) == 0 {
+			kv["host"] = vlCStr(vlGenPlainWord(r))
+		}
+		return vlCMap(kv)
+	}
+	cp := map[string]*vlCval{"default": section(), "fixed": section(), "fixedv": section()}
+	var names []string
+	for i, n := 0, 2+r.Intn(3); i < n; i++ {
+		nm := word()
+		names = append(names, nm)
+		cp[nm] = section()
+	}
+	if r.P(1, 2) { // a subtree one level deeper: the state is `region.zone`
+		a, b := word(), word()
+		cp[a] = vlCMap(map[string]*vlCval{b: section()})
+		names = append(names, a+"."+b)
+	}
+	cfg := vlCMap(map[string]*vlCval{"cp": vlCMap(cp), "kz": vlCStr("zz")})
+	holder := 1 + r.Intn(len(vlCpHolders))
+	kind := vlCpHolders[holder-1]
+	var states [][2]string
+	pick := r.Perm(len(names))
+	for i, s := range kind.slots {
+		name := names[pick[i%len(pick)]]
+		switch {
+		case r.P(1, 8):
+			name = "" // the instance names the default subtree
+		case r.P(1, 14) && s.dyn:
+			name = word() // a subtree that is not configured
+		}
+		shape := "vv"
+		switch {
+		case s.ptr && s.ptrRecv:
+			shape = "pp"
+			if r.P(1, 4) {
+				shape, name = "np", ""
+			}
+		case s.ptr:
+			shape = "pv"
+		case s.ptrRecv:
+			shape = "vp"
+		}
+		states = append(states, [2]string{shape, name})
+	}
+	c := vlCpCaseOf(holder, cfg, r.P(1, 4), states...)
+	c.labels = []string{"cprops-gen"}
+	return c
 }
